@@ -1130,6 +1130,10 @@ class Engine:
         out = []
         for s, it in self.ev(g.iter, st):
             it = self.to_iter_view(it, s, node)
+            if g.ifs and not is_conc_int(it.length) and not self.pure:
+                n_ = self.entailed_int(s, it.length, 0, 64)      # a length fixed by the path condition (e.g. len(x) == 17)
+                if n_ is not None:
+                    it = View(n_, it.get, it.ekind, it.facts, it.tag)
             if is_conc_int(it.length) and it.length <= 64:
                 # concrete length: element by element (may fork)
                 rs = [(s, [])]
@@ -1149,9 +1153,9 @@ class Engine:
                                     else:
                                         sa = s4.copy().assume(t)
                                         sb = s4.assume(b_not(t))
-                                        if not sa.dead:
+                                        if not sa.dead and self.feasible(sa):
                                             c2.append((sa, True))
-                                        if not sb.dead:
+                                        if not sb.dead and self.feasible(sb):
                                             c2.append((sb, False))
                             conds = c2
                         for s3, keep in conds:
@@ -1295,6 +1299,10 @@ class Engine:
             r = self.ev_pop(node, st)
             if r is not None:
                 return r
+        if isinstance(node.func, ast.Attribute) and node.func.attr == 'add' and len(node.args) == 1 and not self.pure:
+            r = self.ev_set_add(node, st)
+            if r is not None:
+                return r
         if isinstance(node.func, ast.Attribute) and ('mut:' + node.func.attr) in self.builtins and not self.pure:
             r = self.ev_mutating(node, st)
             if r is not None:
@@ -1341,6 +1349,21 @@ class Engine:
             nv = View(n1, recv.get, recv.ekind, recv.facts, recv.tag)
             for s3 in self.assign(node.func.value, nv, s, node):
                 out.append((s3, last))
+        return out
+
+    def ev_set_add(self, node, st):
+        """s.add(e) on an abstract set (known through its membership predicate): the set afterwards holds e as well and is
+        not empty.  The receiver expression is re-bound (the set object is shared with the caller: assumption recorded)."""
+        out = []
+        for s, recv in self.ev(node.func.value, st):
+            if not isinstance(recv, AbsSet):
+                return None
+            for s2, e in self.ev(node.args[0], s):
+                old_mem = recv.mem
+                nv = AbsSet(lambda t, _m=old_mem, _e=e: b_or(_m(t), v_eq(t, _e)), False)
+                self.assumptions_used.add('set.add on an abstract set: membership afterwards = membership before or equality with the added element')
+                for s3 in self.assign(node.func.value, nv, s2, node):
+                    out.append((s3, None))
         return out
 
     def ev_mutating(self, node, st):
@@ -1462,6 +1485,11 @@ class Engine:
             cent = self.find_class(cv.name)
             if cent:
                 names = [n.target.id for n in cent[1].body if isinstance(n, ast.AnnAssign) and isinstance(n.target, ast.Name)]
+                for b in cent[1].bases:
+                    # class X(collections.namedtuple('X', 'a b c')): fields from the literal
+                    if isinstance(b, ast.Call) and ast.unparse(b.func).endswith('namedtuple') and len(b.args) == 2 and isinstance(b.args[1], ast.Constant) \
+                            and isinstance(b.args[1].value, str):
+                        names = b.args[1].value.replace(',', ' ').split()
                 if names and len(args) + len(kw) <= len(names):
                     o = st.heap[ref.oid]
                     for n, a in zip(names, args):
@@ -2398,6 +2426,8 @@ class Engine:
             seq = self.to_iter_view(itv, s, stmt)
             if spec is None or spec[1].unroll:
                 n = simp(seq.length)
+                if not is_conc_int(n) and spec is not None and spec[1].unroll:
+                    n = self.entailed_int(s, n, 0, 64)      # a length the path condition fixes (e.g. a contract's len(x) == 17)
                 if not is_conc_int(n):
                     raise ContractError('for loop at line %d of %s has no invariant' % (stmt.lineno, self.frame.qual))
                 if n > 4096:
